@@ -657,6 +657,93 @@ pub fn check_chmod(case: &ChmodCase, w: usize) -> CheckResult {
         .inv(env.invocations))
 }
 
+/// A command planned more than once in one invocation (`-c c0 c0`, or through a sequence and
+/// again with -c), every executable exiting 0: none of the statement's failure causes occurs, so
+/// the run reports failed=false, exits 0, and every entry is `success` with a process behind it.
+#[derive(Debug, Clone, Serialize, Deserialize)]
+pub struct RepeatCase {
+    pub layers: Vec<usize>,
+    pub picks: Vec<u16>,
+    /// 0: `-c c0 c0`; 1: sequence [c0, c1] and `-c c0`; 2: `-c c0 c1 c0`
+    pub shape: u8,
+    /// output per execution differs in size (first long, second short)
+    pub first_lines: usize,
+}
+
+pub fn repeat_strategy() -> impl Strategy<Value = RepeatCase> {
+    (vec(1usize..=3, 1..=2), vec(any::<u16>(), 8), 0u8..3, prop_oneof![Just(1usize), Just(40), Just(400)]).prop_map(|(layers, picks, shape, first_lines)| RepeatCase { layers, picks, shape, first_lines })
+}
+
+pub fn check_repeat(case: &RepeatCase, w: usize) -> CheckResult {
+    let mut cfg = gen::layered_config(&case.layers, &case.picks);
+    cfg.sequences.insert("pipeline".into(), vec!["c0".into(), "c1".into()]);
+    let mut env = Env::new(w);
+    env.install_config(&cfg);
+    let mut beh = BTreeMap::new();
+    for c in ["c0", "c1"] {
+        for t in &cfg.targets {
+            beh.insert(
+                (c.to_string(), t.path.clone()),
+                Behavior {
+                    // the first execution writes much, a later one of the same pair little
+                    out: vec![bb::Step::W(format!("{} {} line\n", c, t.path).repeat(case.first_lines).into_bytes())],
+                    out_later: vec![bb::Step::W(b"up to date\n".to_vec())],
+                    ..Default::default()
+                },
+            );
+        }
+    }
+    bb::install_simple(&env, &cfg, &beh);
+    let (args, want): (Vec<&str>, Vec<&str>) = match case.shape {
+        0 => (vec!["run", "-c", "c0", "c0"], vec!["c0", "c0"]),
+        1 => (vec!["run", "-s", "pipeline", "-c", "c0"], vec!["c0", "c1", "c0"]),
+        _ => (vec!["run", "-c", "c0", "c1", "c0"], vec!["c0", "c1", "c0"]),
+    };
+    let out = env.mr(&args);
+    if out.timed_out {
+        return inconclusive("run timed out".into());
+    }
+    let Some(doc) = out.json() else {
+        if out.stderr_str().contains("Lock acquisition failed") {
+            return inconclusive(format!("run produced no JSON: {}", out.brief()));
+        }
+        return viol_obs("c06.fatal", "a run that plans one command twice ended fatally although every executable exits 0".into(), out.brief());
+    };
+    let run = bb::parse_run(&doc).map_err(|e| Violation::new("c06.output", e))?;
+    if run.failed || out.code != Some(0) {
+        return viol_obs(
+            "c06.failed.flag",
+            format!("failed={} and exit status {:?} although every executable exits 0 (a command is planned twice: {:?})", run.failed, out.code, want),
+            json!({"results": doc.get("results")}),
+        );
+    }
+    let got: Vec<&str> = run.results.iter().map(|r| r.0.as_str()).collect();
+    if got != want {
+        return inconclusive(format!("planned commands {:?}, expected {:?} (judged by C04)", got, want));
+    }
+    let traces = env.traces();
+    let mut n_by_key: BTreeMap<(String, String), usize> = BTreeMap::new();
+    for t in &traces {
+        if t.exit_code == Some(0) {
+            *n_by_key.entry(bb::trace_key(&env, t)).or_default() += 1;
+        }
+    }
+    for (cmd, groups) in &run.results {
+        for g in groups {
+            for (t, r) in g {
+                let occurrences = want.iter().filter(|c| **c == cmd.as_str()).count();
+                if r.status != "success" {
+                    return viol_obs("c06.status.unexpected", format!("({}, {}) is reported {:?} although its executable exits 0", cmd, t, r.status), json!({"results": doc.get("results")}));
+                }
+                if n_by_key.get(&(cmd.clone(), t.clone())).copied().unwrap_or(0) != occurrences {
+                    return viol("c06.success.untruthful", format!("({}, {}) is reported success at {} places but {} processes ran to completion with exit 0", cmd, t, occurrences, n_by_key.get(&(cmd.clone(), t.clone())).copied().unwrap_or(0)));
+                }
+            }
+        }
+    }
+    Ok(CaseInfo::new(true).class("a-command-planned-twice").class(&format!("shape={}", case.shape)).inv(env.invocations))
+}
+
 pub fn run(ctx: &mut Ctx) {
     ctx.rule = "layered plan (1-4 groups x 1-4 targets x 1-3 commands) x 0-3 faults anywhere (exit 1..255, missing x bit, undefined) x --fail-on-undefined \
 x child sleeps x 0-3 internal delays (0-60 ms) at guarded points; plus a deterministic sweep (no fault, group size 2-12, one delay at one point); plus a wide-group mode (one group of 33-70 members, thorough 130, one of which fails at once while the others keep running); plus faults by signal (judged for truthfulness only) and command files whose x bit is removed by an earlier executable of the same run. \
@@ -673,6 +760,8 @@ or no fault with a delay on a shutdown/drain point and a group of >= 2; distinct
     ctx.drive("run", strategy, n, check);
     let n2 = ctx.n(40, 800);
     ctx.drive("xbit-lost-during-run", chmod_strategy, n2, check_chmod);
+    let n4 = ctx.n(24, 400);
+    ctx.drive("repeated-command", repeat_strategy, n4, check_repeat);
     let n3 = ctx.n(16, 300);
     let max_n = if ctx.thorough() { 130 } else { 70 };
     ctx.drive("wide-group-failure", move || strategy_wide(max_n), n3, check);
@@ -682,6 +771,12 @@ pub fn replay(ctx: &Ctx, label: &str, case: Value) -> Result<(), String> {
     if label.contains("xbit") {
         let c: ChmodCase = serde_json::from_value(case).map_err(|e| e.to_string())?;
         let r = check_chmod(&c, 0);
+        ctx.replay_one(label, &c, r);
+        return Ok(());
+    }
+    if label.contains("repeated-command") {
+        let c: RepeatCase = serde_json::from_value(case).map_err(|e| e.to_string())?;
+        let r = check_repeat(&c, 0);
         ctx.replay_one(label, &c, r);
         return Ok(());
     }
